@@ -258,4 +258,308 @@ theorem linear_hasDerivAt_curve (X : Fin n → Fin d → ℝ)
   simp only [linearGradW_apply, linearGradB_apply, neg_neg, mul_add, Finset.sum_add_distrib, pull_W, pull_b]
   rfl
 
+/-- CategoricalModel: `[-tau]` is minus the gradient of `⟨g, softmax(logits)⟩`. -/
+theorem categorical_hasDerivAt_curve {Lc : ℝ → Fin n → Fin K → ℝ} {E : Fin n → Fin K → ℝ} {t₀ : ℝ}
+    (hL : ∀ i k, HasDerivAt (fun t => Lc t i k) (E i k) t₀) (g : Fin n → Fin K → ℝ) :
+    HasDerivAt (fun t => ∑ i, ∑ k, g i k * categoricalInfer (Lc t) i k)
+      (∑ i, ∑ k, -(categoricalGrad (categoricalInfer (Lc t₀)) g i k) * E i k) t₀ := by
+  simp only [categoricalInfer, categoricalGrad, neg_neg]
+  exact hasDerivAt_softmax_rows hL g
+
+/-- the l2 penalty of RIM -/
+theorem hasDerivAt_sq_penalty {Wc : ℝ → Fin d → Fin K → ℝ} {E : Fin d → Fin K → ℝ} {t₀ : ℝ}
+    (hW : ∀ j k, HasDerivAt (fun t => Wc t j k) (E j k) t₀) :
+    HasDerivAt (fun t => ∑ j, ∑ k, Wc t j k ^ 2) (∑ j, ∑ k, 2 * Wc t₀ j k * E j k) t₀ :=
+  HasDerivAt.fun_sum fun j _ => HasDerivAt.fun_sum fun k _ => by
+    simpa using (hW j k).fun_pow 2
+
+/-- the kernel-weighted l2 penalty `tr(Wᵀ κ W)` of KernelRIM, for a symmetric kernel -/
+theorem hasDerivAt_kernel_penalty (κ : Fin n → Fin n → ℝ) (hκ : ∀ j l, κ j l = κ l j)
+    {Wc : ℝ → Fin n → Fin K → ℝ} {E : Fin n → Fin K → ℝ} {t₀ : ℝ}
+    (hW : ∀ j k, HasDerivAt (fun t => Wc t j k) (E j k) t₀) :
+    HasDerivAt (fun t => ∑ k, ∑ j, ∑ l, Wc t j k * κ j l * Wc t l k)
+      (∑ j, ∑ k, 2 * (∑ l, κ j l * Wc t₀ l k) * E j k) t₀ := by
+  have h := HasDerivAt.fun_sum (u := Finset.univ) fun k _ => HasDerivAt.fun_sum (u := Finset.univ) fun j _ =>
+    HasDerivAt.fun_sum (u := Finset.univ) fun l _ => ((hW j k).mul_const (κ j l)).fun_mul (hW l k)
+  refine h.congr_deriv ?_
+  have hB : ∑ k, ∑ j, ∑ l, Wc t₀ j k * κ j l * E l k = ∑ k, ∑ j, ∑ l, E j k * κ j l * Wc t₀ l k := by
+    refine Finset.sum_congr rfl fun k _ => ?_
+    rw [Finset.sum_comm]
+    refine Finset.sum_congr rfl fun j _ => Finset.sum_congr rfl fun l _ => ?_
+    rw [hκ l j]; ring
+  simp only [Finset.sum_add_distrib, hB]
+  rw [Finset.sum_comm (f := fun j k => 2 * (∑ l, κ j l * Wc t₀ l k) * E j k)]
+  simp only [Finset.mul_sum, Finset.sum_mul, ← Finset.sum_add_distrib]
+  exact Finset.sum_congr rfl fun k _ => Finset.sum_congr rfl fun j _ => Finset.sum_congr rfl fun l _ => by ring
+
+theorem rimGradW_apply (reg : ℝ) (X : Fin n → Fin d → ℝ) (W : Fin d → Fin K → ℝ) (y g : Fin n → Fin K → ℝ)
+    (j : Fin d) (k : Fin K) : rimGradW reg X W y g j k = linearGradW X y g j k + reg * 2 * W j k := by
+  simp [rimGradW]
+
+theorem kernelRimGradW_apply (reg : ℝ) (κ : Fin n → Fin n → ℝ) (Xb : Fin m → Fin n → ℝ) (W : Fin n → Fin K → ℝ)
+    (y g : Fin m → Fin K → ℝ) (j : Fin n) (k : Fin K) :
+    kernelRimGradW reg κ Xb W y g j k = linearGradW Xb y g j k + 2 * reg * ∑ l, κ j l * W l k := by
+  simp [kernelRimGradW]
+
+/-- RIM: after `_update_weights` the direction is minus the gradient of `⟨g, infer⟩ - reg * ‖W‖²`. -/
+theorem rim_hasDerivAt_curve (reg : ℝ) (X : Fin n → Fin d → ℝ)
+    {Wc : ℝ → Fin d → Fin K → ℝ} {E : Fin d → Fin K → ℝ} {bc : ℝ → Fin K → ℝ} {e : Fin K → ℝ} {t₀ : ℝ}
+    (hW : ∀ j k, HasDerivAt (fun t => Wc t j k) (E j k) t₀)
+    (hb : ∀ k, HasDerivAt (fun t => bc t k) (e k) t₀) (g : Fin n → Fin K → ℝ) :
+    HasDerivAt (fun t => (∑ i, ∑ k, g i k * linearInfer X (Wc t) (bc t) i k) - reg * ∑ j, ∑ k, Wc t j k ^ 2)
+      (∑ j, ∑ k, -(rimGradW reg X (Wc t₀) (linearInfer X (Wc t₀) (bc t₀)) g j k) * E j k
+        + ∑ k, -(linearGradB (linearInfer X (Wc t₀) (bc t₀)) g k) * e k) t₀ := by
+  refine ((linear_hasDerivAt_curve X hW hb g).fun_sub ((hasDerivAt_sq_penalty hW).const_mul reg)).congr_deriv ?_
+  simp only [rimGradW_apply]
+  generalize linearGradW X (linearInfer X (Wc t₀) (bc t₀)) g = LG
+  have e1 : ∑ j, ∑ k, -(LG j k + reg * 2 * Wc t₀ j k) * E j k
+      = ∑ j, ∑ k, -(LG j k) * E j k - reg * ∑ j, ∑ k, 2 * Wc t₀ j k * E j k := by
+    simp only [Finset.mul_sum, ← Finset.sum_sub_distrib]
+    exact Finset.sum_congr rfl fun j _ => Finset.sum_congr rfl fun k _ => by ring
+  rw [e1]
+  ring
+
+/-- KernelRIM: the direction is minus the gradient of `⟨g, infer⟩ - reg * tr(Wᵀ κ W)` (symmetric `κ`), whatever
+    rows `Xb` of the kernel form the batch. -/
+theorem kernelRim_hasDerivAt_curve (reg : ℝ) (κ : Fin n → Fin n → ℝ) (hκ : ∀ j l, κ j l = κ l j)
+    (Xb : Fin m → Fin n → ℝ)
+    {Wc : ℝ → Fin n → Fin K → ℝ} {E : Fin n → Fin K → ℝ} {bc : ℝ → Fin K → ℝ} {e : Fin K → ℝ} {t₀ : ℝ}
+    (hW : ∀ j k, HasDerivAt (fun t => Wc t j k) (E j k) t₀)
+    (hb : ∀ k, HasDerivAt (fun t => bc t k) (e k) t₀) (g : Fin m → Fin K → ℝ) :
+    HasDerivAt (fun t => (∑ i, ∑ k, g i k * linearInfer Xb (Wc t) (bc t) i k)
+        - reg * ∑ k, ∑ j, ∑ l, Wc t j k * κ j l * Wc t l k)
+      (∑ j, ∑ k, -(kernelRimGradW reg κ Xb (Wc t₀) (linearInfer Xb (Wc t₀) (bc t₀)) g j k) * E j k
+        + ∑ k, -(linearGradB (linearInfer Xb (Wc t₀) (bc t₀)) g k) * e k) t₀ := by
+  refine ((linear_hasDerivAt_curve Xb hW hb g).fun_sub
+    ((hasDerivAt_kernel_penalty κ hκ hW).const_mul reg)).congr_deriv ?_
+  simp only [kernelRimGradW_apply]
+  generalize linearGradW Xb (linearInfer Xb (Wc t₀) (bc t₀)) g = LG
+  have e1 : ∑ j, ∑ k, -(LG j k + 2 * reg * ∑ l, κ j l * Wc t₀ l k) * E j k
+      = ∑ j, ∑ k, -(LG j k) * E j k - reg * ∑ j, ∑ k, 2 * (∑ l, κ j l * Wc t₀ l k) * E j k := by
+    rw [Finset.mul_sum, ← Finset.sum_sub_distrib]
+    refine Finset.sum_congr rfl fun j _ => ?_
+    rw [Finset.mul_sum, ← Finset.sum_sub_distrib]
+    exact Finset.sum_congr rfl fun k _ => by ring
+  rw [e1]
+  ring
+
+/-! ### MLP family along curves -/
+
+/-- Output layer of the (sparse) MLP fed by an arbitrary differentiable hidden curve `Hc`. -/
+theorem sparse_output_hasDerivAt_curve (X : Fin n → Fin d → ℝ)
+    {Hc : ℝ → Fin n → Fin h → ℝ} {H' : Fin n → Fin h → ℝ}
+    {W2c : ℝ → Fin h → Fin K → ℝ} {E2 : Fin h → Fin K → ℝ} {b2c : ℝ → Fin K → ℝ} {e2 : Fin K → ℝ}
+    {Wsc : ℝ → Fin d → Fin K → ℝ} {Es : Fin d → Fin K → ℝ} {t₀ : ℝ}
+    (hH : ∀ i j, HasDerivAt (fun t => Hc t i j) (H' i j) t₀)
+    (hW2 : ∀ j k, HasDerivAt (fun t => W2c t j k) (E2 j k) t₀)
+    (hb2 : ∀ k, HasDerivAt (fun t => b2c t k) (e2 k) t₀)
+    (hWs : ∀ a k, HasDerivAt (fun t => Wsc t a k) (Es a k) t₀)
+    (g y : Fin n → Fin K → ℝ)
+    (hy : ∀ i, y i = softmaxRow fun k => affine (Hc t₀) (W2c t₀) (b2c t₀) i k + ∑ a, X i a * Wsc t₀ a k) :
+    HasDerivAt
+      (fun t => ∑ i, ∑ k, g i k *
+        softmaxRow (fun k => affine (Hc t) (W2c t) (b2c t) i k + ∑ a, X i a * Wsc t a k) k)
+      (∑ i, ∑ j, (∑ k, tauHat y g i k * W2c t₀ j k) * H' i j
+        + ∑ j, ∑ k, (∑ i, Hc t₀ i j * tauHat y g i k) * E2 j k
+        + ∑ k, (∑ i, tauHat y g i k) * e2 k
+        + ∑ a, ∑ k, (∑ i, X i a * tauHat y g i k) * Es a k) t₀ := by
+  have hZ : ∀ i k, HasDerivAt (fun t => affine (Hc t) (W2c t) (b2c t) i k + ∑ a, X i a * Wsc t a k)
+      (∑ j, (H' i j * W2c t₀ j k + Hc t₀ i j * E2 j k) + e2 k + ∑ a, X i a * Es a k) t₀ := fun i k =>
+    (hasDerivAt_affine hH hW2 hb2 i k).fun_add (HasDerivAt.fun_sum fun a _ => (hWs a k).const_mul (X i a))
+  have hy' : y = fun i => softmaxRow fun k => affine (Hc t₀) (W2c t₀) (b2c t₀) i k + ∑ a, X i a * Wsc t₀ a k :=
+    funext hy
+  refine (hasDerivAt_softmax_rows (Z := fun t i k => affine (Hc t) (W2c t) (b2c t) i k + ∑ a, X i a * Wsc t a k)
+    hZ g).congr_deriv ?_
+  simp only [← hy']
+  simp only [Finset.sum_add_distrib, mul_add]
+  rw [pull_H (tauHat y g) H' (W2c t₀), pull_W (tauHat y g) (Hc t₀) E2, pull_b, pull_W (tauHat y g) X Es]
+
+theorem pull_hidden (S M : Fin n → Fin h → ℝ) (X : Fin n → Fin d → ℝ) (E1 : Fin d → Fin h → ℝ) (e1 : Fin h → ℝ) :
+    ∑ i, ∑ j, S i j * (M i j * (∑ a, X i a * E1 a j + e1 j))
+      = ∑ a, ∑ j, (∑ i, X i a * (S i j * M i j)) * E1 a j + ∑ j, (∑ i, S i j * M i j) * e1 j := by
+  have h1 := pull_W (fun i j => S i j * M i j) X E1
+  have h2 := pull_b (fun i j => S i j * M i j) e1
+  rw [← h1, ← h2, ← Finset.sum_add_distrib]
+  refine Finset.sum_congr rfl fun i _ => ?_
+  rw [← Finset.sum_add_distrib]
+  exact Finset.sum_congr rfl fun j _ => by ring
+
+/-- SparseMLPModel, output-side parameters (`W2, b2, W_skip`): no differentiability condition is needed. -/
+theorem sparse_outer_hasDerivAt_curve (X : Fin n → Fin d → ℝ) (W1 : Fin d → Fin h → ℝ) (b1 : Fin h → ℝ)
+    {W2c : ℝ → Fin h → Fin K → ℝ} {E2 : Fin h → Fin K → ℝ} {b2c : ℝ → Fin K → ℝ} {e2 : Fin K → ℝ}
+    {Wsc : ℝ → Fin d → Fin K → ℝ} {Es : Fin d → Fin K → ℝ} {t₀ : ℝ}
+    (hW2 : ∀ j k, HasDerivAt (fun t => W2c t j k) (E2 j k) t₀)
+    (hb2 : ∀ k, HasDerivAt (fun t => b2c t k) (e2 k) t₀)
+    (hWs : ∀ a k, HasDerivAt (fun t => Wsc t a k) (Es a k) t₀) (g : Fin n → Fin K → ℝ) :
+    HasDerivAt (fun t => ∑ i, ∑ k, g i k * sparseMlpInfer X W1 b1 (W2c t) (b2c t) (Wsc t) i k)
+      (∑ j, ∑ k, -((mlpGrads X (hidden X W1 b1) (W2c t₀)
+            (sparseMlpInfer X W1 b1 (W2c t₀) (b2c t₀) (Wsc t₀)) g).W2 j k) * E2 j k
+        + ∑ k, -((mlpGrads X (hidden X W1 b1) (W2c t₀)
+            (sparseMlpInfer X W1 b1 (W2c t₀) (b2c t₀) (Wsc t₀)) g).b2 k) * e2 k
+        + ∑ a, ∑ k, -((mlpGrads X (hidden X W1 b1) (W2c t₀)
+            (sparseMlpInfer X W1 b1 (W2c t₀) (b2c t₀) (Wsc t₀)) g).Ws a k) * Es a k) t₀ := by
+  simp only [sparseMlpInfer_row X W1 b1]
+  have h := sparse_output_hasDerivAt_curve X (Hc := fun _ => hidden X W1 b1) (H' := fun _ _ => 0)
+    (fun i j => hasDerivAt_const t₀ _) hW2 hb2 hWs g
+    (sparseMlpInfer X W1 b1 (W2c t₀) (b2c t₀) (Wsc t₀)) (fun i => sparseMlpInfer_row X W1 b1 _ _ _ i)
+  refine h.congr_deriv ?_
+  simp only [mlpGrads_W2, mlpGrads_b2, mlpGrads_Ws, neg_neg, mul_zero, Finset.sum_const_zero, zero_add]
+
+/-- SparseMLPModel, all five parameters at once, at a point where no pre-activation is 0. -/
+theorem sparse_hasDerivAt_curve (X : Fin n → Fin d → ℝ)
+    {W1c : ℝ → Fin d → Fin h → ℝ} {E1 : Fin d → Fin h → ℝ} {b1c : ℝ → Fin h → ℝ} {e1 : Fin h → ℝ}
+    {W2c : ℝ → Fin h → Fin K → ℝ} {E2 : Fin h → Fin K → ℝ} {b2c : ℝ → Fin K → ℝ} {e2 : Fin K → ℝ}
+    {Wsc : ℝ → Fin d → Fin K → ℝ} {Es : Fin d → Fin K → ℝ} {t₀ : ℝ}
+    (hW1 : ∀ a j, HasDerivAt (fun t => W1c t a j) (E1 a j) t₀)
+    (hb1 : ∀ j, HasDerivAt (fun t => b1c t j) (e1 j) t₀)
+    (hW2 : ∀ j k, HasDerivAt (fun t => W2c t j k) (E2 j k) t₀)
+    (hb2 : ∀ k, HasDerivAt (fun t => b2c t k) (e2 k) t₀)
+    (hWs : ∀ a k, HasDerivAt (fun t => Wsc t a k) (Es a k) t₀)
+    (hact : ∀ i j, affine X (W1c t₀) (b1c t₀) i j ≠ 0) (g : Fin n → Fin K → ℝ) :
+    HasDerivAt (fun t => ∑ i, ∑ k, g i k * sparseMlpInfer X (W1c t) (b1c t) (W2c t) (b2c t) (Wsc t) i k)
+      (∑ a, ∑ j, -((mlpGrads X (hidden X (W1c t₀) (b1c t₀)) (W2c t₀)
+            (sparseMlpInfer X (W1c t₀) (b1c t₀) (W2c t₀) (b2c t₀) (Wsc t₀)) g).W1 a j) * E1 a j
+        + ∑ j, -((mlpGrads X (hidden X (W1c t₀) (b1c t₀)) (W2c t₀)
+            (sparseMlpInfer X (W1c t₀) (b1c t₀) (W2c t₀) (b2c t₀) (Wsc t₀)) g).b1 j) * e1 j
+        + ∑ j, ∑ k, -((mlpGrads X (hidden X (W1c t₀) (b1c t₀)) (W2c t₀)
+            (sparseMlpInfer X (W1c t₀) (b1c t₀) (W2c t₀) (b2c t₀) (Wsc t₀)) g).W2 j k) * E2 j k
+        + ∑ k, -((mlpGrads X (hidden X (W1c t₀) (b1c t₀)) (W2c t₀)
+            (sparseMlpInfer X (W1c t₀) (b1c t₀) (W2c t₀) (b2c t₀) (Wsc t₀)) g).b2 k) * e2 k
+        + ∑ a, ∑ k, -((mlpGrads X (hidden X (W1c t₀) (b1c t₀)) (W2c t₀)
+            (sparseMlpInfer X (W1c t₀) (b1c t₀) (W2c t₀) (b2c t₀) (Wsc t₀)) g).Ws a k) * Es a k) t₀ := by
+  simp only [sparseMlpInfer_row X]
+  have h := sparse_output_hasDerivAt_curve X (Hc := fun t => hidden X (W1c t) (b1c t))
+    (hasDerivAt_hidden X hW1 hb1 hact) hW2 hb2 hWs g
+    (sparseMlpInfer X (W1c t₀) (b1c t₀) (W2c t₀) (b2c t₀) (Wsc t₀)) (fun i => sparseMlpInfer_row X _ _ _ _ _ i)
+  refine h.congr_deriv ?_
+  simp only [mlpGrads_W1, mlpGrads_b1, mlpGrads_W2, mlpGrads_b2, mlpGrads_Ws, neg_neg, pull_hidden, bpSignal]
+
+/-- MLPModel, output-side parameters (`W2, b2`): no differentiability condition is needed. -/
+theorem mlp_outer_hasDerivAt_curve (X : Fin n → Fin d → ℝ) (W1 : Fin d → Fin h → ℝ) (b1 : Fin h → ℝ)
+    {W2c : ℝ → Fin h → Fin K → ℝ} {E2 : Fin h → Fin K → ℝ} {b2c : ℝ → Fin K → ℝ} {e2 : Fin K → ℝ} {t₀ : ℝ}
+    (hW2 : ∀ j k, HasDerivAt (fun t => W2c t j k) (E2 j k) t₀)
+    (hb2 : ∀ k, HasDerivAt (fun t => b2c t k) (e2 k) t₀) (g : Fin n → Fin K → ℝ) :
+    HasDerivAt (fun t => ∑ i, ∑ k, g i k * mlpInfer X W1 b1 (W2c t) (b2c t) i k)
+      (∑ j, ∑ k, -((mlpGrads X (hidden X W1 b1) (W2c t₀) (mlpInfer X W1 b1 (W2c t₀) (b2c t₀)) g).W2 j k) * E2 j k
+        + ∑ k, -((mlpGrads X (hidden X W1 b1) (W2c t₀) (mlpInfer X W1 b1 (W2c t₀) (b2c t₀)) g).b2 k) * e2 k) t₀ := by
+  simp only [mlpInfer_eq_sparse]
+  have h := sparse_outer_hasDerivAt_curve X W1 b1 (Wsc := fun _ _ _ => 0) (Es := fun _ _ => 0) hW2 hb2
+    (fun _ _ => hasDerivAt_const t₀ _) g
+  refine h.congr_deriv ?_
+  simp only [mul_zero, Finset.sum_const_zero, add_zero]
+
+/-- MLPModel, all four parameters at once, at a point where no pre-activation is 0. -/
+theorem mlp_hasDerivAt_curve (X : Fin n → Fin d → ℝ)
+    {W1c : ℝ → Fin d → Fin h → ℝ} {E1 : Fin d → Fin h → ℝ} {b1c : ℝ → Fin h → ℝ} {e1 : Fin h → ℝ}
+    {W2c : ℝ → Fin h → Fin K → ℝ} {E2 : Fin h → Fin K → ℝ} {b2c : ℝ → Fin K → ℝ} {e2 : Fin K → ℝ} {t₀ : ℝ}
+    (hW1 : ∀ a j, HasDerivAt (fun t => W1c t a j) (E1 a j) t₀)
+    (hb1 : ∀ j, HasDerivAt (fun t => b1c t j) (e1 j) t₀)
+    (hW2 : ∀ j k, HasDerivAt (fun t => W2c t j k) (E2 j k) t₀)
+    (hb2 : ∀ k, HasDerivAt (fun t => b2c t k) (e2 k) t₀)
+    (hact : ∀ i j, affine X (W1c t₀) (b1c t₀) i j ≠ 0) (g : Fin n → Fin K → ℝ) :
+    HasDerivAt (fun t => ∑ i, ∑ k, g i k * mlpInfer X (W1c t) (b1c t) (W2c t) (b2c t) i k)
+      (∑ a, ∑ j, -((mlpGrads X (hidden X (W1c t₀) (b1c t₀)) (W2c t₀)
+            (mlpInfer X (W1c t₀) (b1c t₀) (W2c t₀) (b2c t₀)) g).W1 a j) * E1 a j
+        + ∑ j, -((mlpGrads X (hidden X (W1c t₀) (b1c t₀)) (W2c t₀)
+            (mlpInfer X (W1c t₀) (b1c t₀) (W2c t₀) (b2c t₀)) g).b1 j) * e1 j
+        + ∑ j, ∑ k, -((mlpGrads X (hidden X (W1c t₀) (b1c t₀)) (W2c t₀)
+            (mlpInfer X (W1c t₀) (b1c t₀) (W2c t₀) (b2c t₀)) g).W2 j k) * E2 j k
+        + ∑ k, -((mlpGrads X (hidden X (W1c t₀) (b1c t₀)) (W2c t₀)
+            (mlpInfer X (W1c t₀) (b1c t₀) (W2c t₀) (b2c t₀)) g).b2 k) * e2 k) t₀ := by
+  simp only [mlpInfer_eq_sparse]
+  have h := sparse_hasDerivAt_curve X (Wsc := fun _ _ _ => 0) (Es := fun _ _ => 0) hW1 hb1 hW2 hb2
+    (fun _ _ => hasDerivAt_const t₀ _) hact g
+  refine h.congr_deriv ?_
+  simp only [mul_zero, Finset.sum_const_zero, add_zero]
+
+/-! ### lines and single-entry perturbations -/
+
+theorem hasDerivAt_lin (a b : ℝ) : HasDerivAt (fun t : ℝ => a + t * b) b 0 := by
+  simpa using ((hasDerivAt_id' (0 : ℝ)).mul_const b).const_add a
+
+/-- `W` with the single entry `(a, c)` moved by `t` -/
+def bump2 {r s : ℕ} (W : Fin r → Fin s → ℝ) (a : Fin r) (c : Fin s) (t : ℝ) : Fin r → Fin s → ℝ :=
+  Function.update W a (Function.update (W a) c (W a c + t))
+
+/-- `b` with the single entry `c` moved by `t` -/
+def bump1 {s : ℕ} (b : Fin s → ℝ) (c : Fin s) (t : ℝ) : Fin s → ℝ :=
+  Function.update b c (b c + t)
+
+theorem bump2_apply {r s : ℕ} (W : Fin r → Fin s → ℝ) (a : Fin r) (c : Fin s) (t : ℝ) (j : Fin r) (k : Fin s) :
+    bump2 W a c t j k = W j k + t * (if j = a ∧ k = c then 1 else 0) := by
+  unfold bump2
+  by_cases hj : j = a
+  · subst hj
+    by_cases hk : k = c
+    · subst hk; simp
+    · simp [hk]
+  · simp [hj]
+
+theorem bump1_apply {s : ℕ} (b : Fin s → ℝ) (c : Fin s) (t : ℝ) (k : Fin s) :
+    bump1 b c t k = b k + t * (if k = c then 1 else 0) := by
+  unfold bump1
+  by_cases hk : k = c
+  · subst hk; simp
+  · simp [hk]
+
+@[simp] theorem bump2_zero {r s : ℕ} (W : Fin r → Fin s → ℝ) (a : Fin r) (c : Fin s) : bump2 W a c 0 = W := by
+  funext j k; simp [bump2_apply]
+
+@[simp] theorem bump1_zero {s : ℕ} (b : Fin s → ℝ) (c : Fin s) : bump1 b c 0 = b := by
+  funext k; simp [bump1_apply]
+
+theorem hasDerivAt_bump2 {r s : ℕ} (W : Fin r → Fin s → ℝ) (a : Fin r) (c : Fin s) (j : Fin r) (k : Fin s) :
+    HasDerivAt (fun t => bump2 W a c t j k) (if j = a ∧ k = c then 1 else 0) 0 := by
+  simp only [bump2_apply]
+  exact hasDerivAt_lin _ _
+
+theorem hasDerivAt_bump1 {s : ℕ} (b : Fin s → ℝ) (c : Fin s) (k : Fin s) :
+    HasDerivAt (fun t => bump1 b c t k) (if k = c then 1 else 0) 0 := by
+  simp only [bump1_apply]
+  exact hasDerivAt_lin _ _
+
+theorem sum_ind2 {r s : ℕ} (F : Fin r → Fin s → ℝ) (a : Fin r) (c : Fin s) :
+    ∑ j, ∑ k, F j k * (if j = a ∧ k = c then 1 else 0) = F a c := by
+  rw [Finset.sum_eq_single a (fun j _ hj => by simp [hj]) (fun h => absurd (Finset.mem_univ a) h),
+    Finset.sum_eq_single c (fun k _ hk => by simp [hk]) (fun h => absurd (Finset.mem_univ c) h)]
+  simp
+
+theorem sum_ind1 {s : ℕ} (F : Fin s → ℝ) (c : Fin s) :
+    ∑ k, F k * (if k = c then 1 else 0) = F c := by
+  rw [Finset.sum_eq_single c (fun k _ hk => by simp [hk]) (fun h => absurd (Finset.mem_univ c) h)]
+  simp
+
+/-! ### the condition on the pre-activations cannot be dropped -/
+
+/-- a function with non-zero slope composed with `max(·,0)` has a genuine kink at 0 -/
+theorem not_differentiableAt_comp_relu {φ : ℝ → ℝ} {φ' : ℝ} (hφ : HasDerivAt φ φ' 0) (h0 : φ' ≠ 0) :
+    ¬ DifferentiableAt ℝ (fun t : ℝ => φ (max t 0)) 0 := by
+  intro hd
+  have hD := hd.hasDerivAt
+  have hr : HasDerivWithinAt (fun t : ℝ => φ (max t 0)) φ' (Set.Ici 0) 0 :=
+    hφ.hasDerivWithinAt.congr (fun t ht => by simp [max_eq_left (Set.mem_Ici.mp ht)]) (by simp)
+  have hl : HasDerivWithinAt (fun t : ℝ => φ (max t 0)) 0 (Set.Iic 0) 0 :=
+    (hasDerivWithinAt_const (0 : ℝ) (Set.Iic 0) (φ 0)).congr
+      (fun t ht => by simp [max_eq_right (Set.mem_Iic.mp ht)]) (by simp)
+  have e1 := (uniqueDiffWithinAt_Ici (0 : ℝ)).eq_deriv _ hD.hasDerivWithinAt hr
+  have e2 := (uniqueDiffWithinAt_Iic (0 : ℝ)).eq_deriv _ hD.hasDerivWithinAt hl
+  exact h0 (e1 ▸ e2)
+
+/-- a 1-sample, 1-feature, 1-hidden-unit, 2-cluster MLP whose pre-activation is 0: as a function of `W1` the
+    objective `⟨g, infer⟩` is `exp(max t 0) / (exp(max t 0) + 1)` -/
+theorem kink_example_eq (t : ℝ) :
+    (∑ i : Fin 1, ∑ k : Fin 2, (if k = 0 then (1 : ℝ) else 0) *
+      mlpInfer (fun _ _ => (1 : ℝ)) (bump2 (fun _ _ => (0 : ℝ)) (0 : Fin 1) (0 : Fin 1) t) (fun _ => 0)
+        (fun _ k => if k = 0 then 1 else 0) (fun _ => 0) i k)
+    = Real.exp (max t 0) / (Real.exp (max t 0) + 1) := by
+  simp [mlpInfer_eq_sparse, sparseMlpInfer_row, softmaxRow_eq, affine_apply, hidden_apply, bump2_apply,
+    Fin.sum_univ_two]
+
+theorem kink_example_not_differentiable :
+    ¬ DifferentiableAt ℝ (fun t : ℝ => Real.exp (max t 0) / (Real.exp (max t 0) + 1)) 0 := by
+  have hφ : HasDerivAt (fun s : ℝ => Real.exp s / (Real.exp s + 1))
+      ((Real.exp 0 * (Real.exp 0 + 1) - Real.exp 0 * Real.exp 0) / (Real.exp 0 + 1) ^ 2) 0 :=
+    (Real.hasDerivAt_exp 0).fun_div ((Real.hasDerivAt_exp 0).add_const 1) (by positivity)
+  exact not_differentiableAt_comp_relu hφ (by simp [Real.exp_zero])
+
 end GemVerif
